@@ -9,7 +9,7 @@
    its centre and fixed flag, [B] the nets.  Numbers are exact rationals: what
    binary64 rounding does (finiteness, the (c - D/2) + D/2 round trip) is
    explored by the harness, not proved. *)
-From FrameModel Require Import Num.QcTac Force.FR Force.FRFacts.
+From FrameModel Require Import Num.QcTac Force.FR Force.FRFacts Force.FRSeq Force.FRSeqFacts.
 Open Scope Qc_scope.
 
 (* fixed modules: the position is never assigned, the returned centre is
@@ -106,3 +106,69 @@ Theorem C13_fa_argmin_on : forall (A B : Type) (force : Qc -> nat -> Qc -> list 
     (forall k, In k l1 -> c kb < c k) /\ (forall k, In k l2 -> c kb <= c k).
 Proof. exact @fa_argmin_on. Qed.
 Print Assumptions C13_fa_argmin_on.
+
+(* ---------------------------------------------------------------------------------------
+   HISTORIES.  The same Die / Netlist objects are relocated again and again, squared by
+   create_squares / Allocation, edited by the caller, deep-copied (Force/FRSeq.v: [op],
+   [apply_op], [run_ops]).  The model is a function of values, so a history is a fold; every
+   force law and cost function below is arbitrary and may differ from call to call.
+   --------------------------------------------------------------------------------------- *)
+
+(* the call at ANY position of ANY history keeps the promises of a single call, taken
+   from the value the history has reached: nothing but centres changes, fixed modules
+   come back as they were, movable ones are in the die (after >= 1 iteration); the
+   caller's own operations change what they say and nothing else ([step_inv]) *)
+Theorem C13_seq_every_call : forall (A B : Type) (W H : Qc), 0 <= W -> 0 <= H ->
+  forall (pre : list (op A B)) (o : op A B) (s : netlist A B),
+  step_inv W H o (run_ops W H pre s) (run_ops W H (pre ++ [o]) s).
+Proof. exact @seq_call_at. Qed.
+Print Assumptions C13_seq_every_call.
+
+(* ... and so does every call of the history, one after the other *)
+Theorem C13_seq_all_calls : forall (A B : Type) (W H : Qc), 0 <= W -> 0 <= H ->
+  forall (ops : list (op A B)) (s : netlist A B), hist_inv W H ops s.
+Proof. exact @seq_hist_inv. Qed.
+Print Assumptions C13_seq_all_calls.
+
+(* force_algorithm at any position of a history: the layout it leaves is the layout of
+   the first constant attaining the smallest cost, where the costs are those of the
+   layouts computed from the centres AS THEY ARE WHEN THAT CALL STARTS (s0) - not the
+   costs of an earlier call on the same object *)
+Theorem C13_seq_argmin : forall (A B : Type) (W H : Qc) (pre : list (op A B))
+    (force : Qc -> law) (cost : netlist A B -> Qc) (ks : list Qc) (max_iter : nat) (s : netlist A B),
+  ks <> [] ->
+  let s0 := run_ops W H pre s in
+  let kb := best_kappa force cost W H max_iter s0 ks in
+  let c k := cost (fr_layout (force k) W H max_iter s0) in
+  run_ops W H (pre ++ [Algo force cost ks max_iter]) s = fr_layout (force kb) W H max_iter s0 /\
+  exists l1 l2, ks = l1 ++ kb :: l2 /\
+    (forall k, In k l1 -> c kb < c k) /\ (forall k, In k l2 -> c kb <= c k).
+Proof. exact @seq_argmin_at. Qed.
+Print Assumptions C13_seq_argmin.
+
+(* determinism along a history: no hidden state - what the rest of a history does
+   depends only on the VALUE reached, not on how it was reached *)
+Theorem C13_seq_no_hidden_state : forall (A B : Type) (W H : Qc) (a b : list (op A B)) (s : netlist A B),
+  run_ops W H (a ++ b) s = run_ops W H b (run_ops W H a s).
+Proof. exact @run_ops_app. Qed.
+Print Assumptions C13_seq_no_hidden_state.
+
+(* however often the same netlist is relocated (and copied): payloads (names, areas,
+   rectangles - the squares included -, flags), fixed flags, module order and nets are
+   those of the start, and a fixed module with a centre is the module it was at the start *)
+Theorem C13_seq_only_centres : forall (A B : Type) (W H : Qc), 0 <= W -> 0 <= H ->
+  forall (ops : list (op A B)) (s : netlist A B), Forall is_reloc ops ->
+  same_but_centres s (run_ops W H ops s) /\ fixed_kept s (run_ops W H ops s).
+Proof. exact @seq_only_centres. Qed.
+Print Assumptions C13_seq_only_centres.
+
+(* centres in the die after every history that starts in the die and in which the
+   callers write centres inside the die; after the first relocation call every module
+   has a centre *)
+Theorem C13_seq_in_die : forall (A B : Type) (W H : Qc), 0 <= W -> 0 <= H ->
+  forall (ops : list (op A B)) (s : netlist A B),
+  Forall (op_in_die W H) ops -> centres_in_die W H s ->
+  centres_in_die W H (run_ops W H ops s) /\
+  (all_centred_in_die W H s \/ Exists is_call ops -> all_centred_in_die W H (run_ops W H ops s)).
+Proof. exact @seq_in_die. Qed.
+Print Assumptions C13_seq_in_die.
